@@ -1,20 +1,44 @@
 (* C15 - Parsing recovers exactly the script written - structure, values and positions.
-   Statements only; proofs in Proofs/LexProofs.v.
+   Statements only; proofs in Proofs/LexProofs.v and Proofs/ParserSound.v.
 
-   PARTIAL. Proved for every text: the reference lexer's tokens are pieces of the input, in order
-   and without overlap, each at exactly the position (line feeds before it, code points since the
-   last one) of its first character - the positions every range of the tree is built from
-   (Model/Parser.v: first token's start to last token's end). That the ANTLR-generated parser
-   recovers the structure and values written is established by correspondence on every generated
-   script and layout: dumped tree = generator's tree with the printer's spans = reference parser's
-   tree (three-way, evaluated in Coq). *)
-From NS Require Import Lexer LexProofs.
+   Spec/Grammar.v is Numscript.g4 written as a declarative relation between token sequences and
+   trees (DProgram, DStmt, DSource, DDest, DExpr, ...: one constructor per alternative, + and - left
+   associative, the range of every node given by its first and last token). Proved for every text:
+   (1) the reference lexer's tokens are pieces of the input, in order and without overlap, each at
+       exactly the position (line feeds before it, code points since the last one) of its first
+       character;
+   (2) whatever the reference parser accepts, the tree it returns is a derivation of exactly those
+       tokens: statement order, source and destination nesting, caps vs. addresses, declarations
+       and origins, literal values;
+   (3) in every derivation the range of an expression, source, destination, call or statement
+       starts where its first token starts and ends where its last token ends.
+   PARTIAL in that the parser that runs is ANTLR-generated code: it is tied to the reference parser
+   by correspondence on every generated script and layout (dumped tree = generator's tree with the
+   printer's spans = reference parser's tree, evaluated in Coq), and its lexer is compared token by
+   token with the reference lexer. Completeness of the reference parser (it accepts every
+   derivable token sequence) is not proved; acceptance of valid scripts is judged (C14). *)
+From NS Require Import Lexer Parser Grammar LexProofs ParserSound.
 Open Scope Z_scope.
 
 Theorem C15_token_positions_exact : forall l : list Z, tiled [] l (fst (lex_text l)).
 Proof. exact (fun l => proj1 (lex_positions_exact l)). Qed.
 
+Theorem C15_parser_sound : forall text p,
+  parse_text text = Parsed p -> DProgram (fst (lex_text text)) p /\ snd (lex_text text) = [].
+Proof. exact parse_text_sound. Qed.
+
+Theorem C15_expression_range : forall ts e, DExpr ts e -> bounds ts (expr_rng e).
+Proof. exact (proj2 expr_bounds). Qed.
+Theorem C15_source_range : forall ts s, DSource ts s -> bounds ts (source_rng s).
+Proof. exact source_bounds. Qed.
+Theorem C15_destination_range : forall ts d, DDest ts d -> bounds ts (dest_rng d).
+Proof. exact dest_bounds. Qed.
+Theorem C15_statement_range : forall ts s, DStmt ts s -> bounds ts (stmt_rng s).
+Proof. exact stmt_bounds. Qed.
+
 Print Assumptions C15_token_positions_exact.
+Print Assumptions C15_parser_sound.
+Print Assumptions C15_statement_range.
 
 (* "é" is one column, whatever its length in bytes; a comment and a line break move the position *)
 Example C15_example :
@@ -22,3 +46,14 @@ Example C15_example :
       (fst (lex_text [34; 233; 34; 32; 47; 42; 32; 42; 47; 32; 64; 97; 10; 32; 53; 48; 37])) (* "é" /* */ @a \n 50% *)
   = [(0, 0, 3); (0, 10, 2); (1, 1, 3)].
 Proof. reflexivity. Qed.
+
+(* non-vacuity: `send [USD 1+2] (source=@a destination=@b)` is accepted; the amount is (1+2) *)
+Example C15_parse_example :
+  match parse_text (cp "send [USD 1+2] (source=@a destination=@b)") with
+  | Parsed p => match p_stmts p with
+                | [StSend r (SVLit _ (EMonetary _ _ (EInfix _ OpPlus (ENumber _ 1) (ENumber _ 2)))) (SAccount _) (DAccount _)] => r = R 0 0 0 41
+                | _ => False
+                end
+  | _ => False
+  end.
+Proof. vm_compute. reflexivity. Qed.
